@@ -40,6 +40,16 @@ class Report:
             self.violation("anchor", "anchor-missing|%s" % e, "anchor missing: %s — the rule cannot be applied to this tree "
                            "(fail closed)" % e)
             return None
+        except (IndexError, KeyError, TypeError, AttributeError, ValueError, RecursionError) as e:
+            # the engine met a program shape it was not written for (an operand it cannot index, a layout it does not know): that
+            # is "cannot decide", not a verdict about the tree — reported as UNDECIDED with the engine's message, never as a violation
+            import traceback
+            tb = traceback.extract_tb(e.__traceback__)
+            where = "%s:%d" % (tb[-1].filename.rsplit("/", 1)[-1], tb[-1].lineno) if tb else "?"
+            rids = sorted(set(self.rules) - before) or [getattr(fn, "__name__", "rule")]
+            self.undecided.append({"rules": rids, "function": "%s.%s" % (getattr(fn, "__module__", "?"), getattr(fn, "__name__", "?")),
+                                   "why": "engine error on an unmodelled shape (%s: %s at %s)" % (type(e).__name__, str(e)[:120], where)})
+            return None
 
     def rule(self, rid, clause):
         self.rules.setdefault(rid, {"clause": clause, "obligations": 0, "discharged": 0, "sites": 0,
